@@ -120,10 +120,39 @@ func gen(t *rapid.T) Case {
 		E = append(E, KV{k, str().Draw(t, "v")})
 	}
 	c.Rel = rapid.SampledFrom([]string{"same", "edit"}).Draw(t, "rel")
+	// byte twins: the two derivations differ in ONE tag value (or key) only, and there only in an
+	// invalid UTF-8 byte versus another invalid byte or U+FFFD, next to characters the key format
+	// uses as delimiters (anything that decodes and re-encodes such a string merges the two)
+	twin := rapid.IntRange(0, 9).Draw(t, "twin") == 0
+	twinAt, twinKey := 0, false
+	var twinBase, twinTail pbt.S
+	if twin {
+		if len(E) == 0 {
+			E = append(E, KV{"k", ""})
+		}
+		twinAt = rapid.IntRange(0, len(E)-1).Draw(t, "twinAt")
+		twinKey = rapid.IntRange(0, 3).Draw(t, "twinKey") == 0
+		twinBase = pbt.S(rapid.StringMatching(`[ab,=+\\]{1,3}`).Draw(t, "twinBase"))
+		twinTail = pbt.S(rapid.StringMatching(`[ab,=]{0,2}`).Draw(t, "twinTail"))
+		if twinKey {
+			E[twinAt] = KV{twinBase + "\xff" + twinTail, E[twinAt].V}
+		} else {
+			E[twinAt] = KV{E[twinAt].K, twinBase + "\xff" + twinTail}
+		}
+		c.Rel = "edit"
+	}
 	c.A = derive(t, "a", P, E)
 	P2 := append([]pbt.S(nil), P...)
 	E2 := append([]KV(nil), E...)
-	if c.Rel == "edit" {
+	if twin {
+		other := pbt.S(rapid.SampledFrom([]string{"\ufffd", "\xfe", "\xc3", "\xff\xff"}).Draw(t, "twinOther"))
+		if twinKey {
+			E2[twinAt] = KV{twinBase + other + twinTail, E2[twinAt].V}
+		} else {
+			E2[twinAt] = KV{E2[twinAt].K, twinBase + other + twinTail}
+		}
+		c.Edit = "byte-twin"
+	} else if c.Rel == "edit" {
 		var choices []string
 		choices = append(choices, "addtag", "addpart")
 		if len(P2) > 0 {
